@@ -43,6 +43,7 @@ type Obs struct {
 	Conns     []string `json:"conns"` // closed | open | returned
 	Bconn     []string `json:"bconn"` // none | closed | open | returned
 	Cancelled bool     `json:"cancelled"`
+	NoReason  []int    `json:"noReason,omitempty"` // brokers whose scripted failure reply carried no reason text
 }
 
 const stagger = 250 * time.Millisecond
@@ -423,7 +424,7 @@ steps:
 				defer c()
 				ad := ccb.NewAd(map[string]any{ccb.AttrResult: ev.R == "ok"})
 				if ev.R != "ok" {
-					_ = ad.Set(ccb.AttrErrorString, failMarker(ev.B))
+					ad = failAd(ev.B, p.Salt, o)
 				}
 				_ = ccb.WriteControlAd(wctx, r.st, ad)
 			})
@@ -440,7 +441,7 @@ steps:
 				case "replyOk":
 					_ = ccb.WriteControlAd(wctx, r.st, ccb.NewAd(map[string]any{ccb.AttrResult: true}))
 				case "replyFail":
-					_ = ccb.WriteControlAd(wctx, r.st, ccb.NewAd(map[string]any{ccb.AttrResult: false, ccb.AttrErrorString: failMarker(ev.B)}))
+					_ = ccb.WriteControlAd(wctx, r.st, failAd(ev.B, p.Salt, o))
 				case "garbage":
 					_ = r.conn.SetWriteDeadline(time.Now().Add(2 * time.Second))
 					_, _ = r.conn.Write(garbageBytes(p.Salt + ev.B))
@@ -578,6 +579,27 @@ steps:
 	}
 	return o, nil
 }
+
+// failAd renders "the broker reports a failure" (Result = false) as one member of a class selected by the salt:
+// with a reason naming the broker, with an empty reason, without any ErrorString (seed C20-f: a failure is a
+// failure whether or not it comes with a text). Brokers whose failure carried no text are noted in the observation.
+func failAd(b, salt int, o *Obs) *classad.ClassAd {
+	switch (salt + b) % 3 {
+	case 1:
+		noReasonMu.Lock()
+		o.NoReason = append(o.NoReason, b)
+		noReasonMu.Unlock()
+		return ccb.NewAd(map[string]any{ccb.AttrResult: false, ccb.AttrErrorString: ""})
+	case 2:
+		noReasonMu.Lock()
+		o.NoReason = append(o.NoReason, b)
+		noReasonMu.Unlock()
+		return ccb.NewAd(map[string]any{ccb.AttrResult: false})
+	}
+	return ccb.NewAd(map[string]any{ccb.AttrResult: false, ccb.AttrErrorString: failMarker(b)})
+}
+
+var noReasonMu sync.Mutex
 
 func failMarker(b int) string { return fmt.Sprintf("scripted-broker-%d-says-no", b) }
 
